@@ -9,7 +9,7 @@ Import ListNotations.
 From SG Require Import Base.Sums Base.ScalarExt NumPy.Index NumPy.Tensor NumPy.Gather NumPy.TensorFn
   NumPy.Broadcast NumPy.Reduce NumPy.Matmul NumPy.Concat NumPy.Overloads
   Proofs.IdxSums Proofs.BcastProofs Proofs.ArithProofs Proofs.ReduceProofs Proofs.MatmulProofs Proofs.ConcatProofs
-  Proofs.MaxProofs Proofs.MaxNoneProofs Proofs.AlgebraExtra.
+  Proofs.Matmul1dProofs Proofs.MaxProofs Proofs.AlgebraExtra.
 
 Section C01.
 Context {A:Type} `{ScalarLaws A} `{!ScalarMulLaws A}.
@@ -53,10 +53,10 @@ Theorem mul_scalar_vjp : forall (g t:tensor A) (c:A), tshape g = tshape t ->
     forall i, In i (idxs (tshape t)) -> tat ga i = smul (tat g i) c.
 Proof. exact mul_scalar_grad_proof. Qed.
 
-(* ---- sum: dim None | int | tuple (any sign, any order), keepdims both.  [strict_axes] = NumPy's axis
-        normalisation without the 0-d legacy case (see sum_0d_int_dim_backward_raises). ---- *)
+(* ---- sum: dim None | int | tuple (any sign, any order), keepdims both; [np_reduce_axes true] = every axis argument
+        np.sum accepts, including the int axes 0 / -1 on a 0-d operand (nothing reduced). ---- *)
 Theorem sum_vjp : forall (a g:tensor A) ax keep ks,
-  strict_axes (rank a) ax = Some ks ->
+  np_reduce_axes true (rank a) ax = Some ks ->
   tshape g = red_shape (mask_of (rank a) ks) (tshape a) keep ->
   exists o r, sum_forward a ax keep = Some o /\ tshape o = tshape g /\
     sum_backward g (tshape a) ax keep = Some r /\ tshape r = tshape a /\
@@ -64,7 +64,7 @@ Theorem sum_vjp : forall (a g:tensor A) ax keep ks,
 Proof. exact sum_vjp_proof. Qed.
 (* the backward is the broadcast of g along the reduced axes, i.e. the gather along the projection *)
 Theorem sum_backward_is_broadcast : forall (g:tensor A) sa ax keep ks,
-  strict_axes (length sa) ax = Some ks ->
+  np_reduce_axes true (length sa) ax = Some ks ->
   tshape g = red_shape (mask_of (length sa) ks) sa keep ->
   exists r, sum_backward g sa ax keep = Some r /\ tshape r = sa /\
     forall i, In i (idxs sa) -> tat r i = tat g (proj (mask_of (length sa) ks) keep i).
@@ -128,6 +128,70 @@ Theorem linear_nobias_vjp : forall bx n k m (g x w:tensor A),
          dot (idxs (tshape g)) (tat g) (tat o) = dot (idxs (tshape w)) (tat gw) (tat w')).
 Proof. exact linear_nobias_vjp_proof. Qed.
 
+(* ---- np.matmul's promotion of a 1-D operand (first: a row, second: a column; the axis is dropped from the result):
+        matmul_backward is the VJP of that forward too ---- *)
+Theorem matmul_vjp_1d_first : forall bb k m (g a b:tensor A),
+  tshape a = [k] -> tshape b = bb ++ [k; m] -> tshape g = bb ++ [m] ->
+  exists ga gb, matmul_backward g a b = Some (ga, gb) /\ tshape ga = tshape a /\ tshape gb = tshape b /\
+    (forall da, tshape da = tshape a -> exists o, np_matmul da b = Some o /\ tshape o = tshape g /\
+        dot (idxs (tshape g)) (tat g) (tat o) = dot (idxs (tshape a)) (tat ga) (tat da)) /\
+    (forall db, tshape db = tshape b -> exists o, np_matmul a db = Some o /\ tshape o = tshape g /\
+        dot (idxs (tshape g)) (tat g) (tat o) = dot (idxs (tshape b)) (tat gb) (tat db)).
+Proof. exact matmul_vjp_row_proof. Qed.
+Theorem matmul_vjp_1d_second : forall ba n k (g a b:tensor A),
+  tshape a = ba ++ [n; k] -> tshape b = [k] -> tshape g = ba ++ [n] ->
+  exists ga gb, matmul_backward g a b = Some (ga, gb) /\ tshape ga = tshape a /\ tshape gb = tshape b /\
+    (forall da, tshape da = tshape a -> exists o, np_matmul da b = Some o /\ tshape o = tshape g /\
+        dot (idxs (tshape g)) (tat g) (tat o) = dot (idxs (tshape a)) (tat ga) (tat da)) /\
+    (forall db, tshape db = tshape b -> exists o, np_matmul a db = Some o /\ tshape o = tshape g /\
+        dot (idxs (tshape g)) (tat g) (tat o) = dot (idxs (tshape b)) (tat gb) (tat db)).
+Proof. exact matmul_vjp_col_proof. Qed.
+(* addmm(a, b, c) with a 1-D c, resp. a 1-D b *)
+Theorem addmm_vjp_1d_c : forall sa bb n k so (g a b c:tensor A),
+  broadcast_shapes sa (bb ++ [n]) = Some so -> tshape a = sa -> tshape b = bb ++ [n; k] -> tshape c = [k] -> tshape g = so ->
+  exists ga gb gc, addmm_backward g a b c = Some (ga, gb, gc) /\
+    tshape ga = tshape a /\ tshape gb = tshape b /\ tshape gc = tshape c /\
+    (forall a' b', tshape a' = tshape a -> tshape b' = tshape b ->
+       exists o, addmm_forward a' b' c = Some o /\ tshape o = so /\
+         dot (idxs so) (tat g) (tat o) = sadd (dot (idxs (tshape a)) (tat ga) (tat a')) (dot (idxs (tshape b)) (tat gb) (tat b'))) /\
+    (forall a' c', tshape a' = tshape a -> tshape c' = tshape c ->
+       exists o, addmm_forward a' b c' = Some o /\ tshape o = so /\
+         dot (idxs so) (tat g) (tat o) = sadd (dot (idxs (tshape a)) (tat ga) (tat a')) (dot (idxs (tshape c)) (tat gc) (tat c'))).
+Proof. exact addmm_vjp_col_proof. Qed.
+Theorem addmm_vjp_1d_b : forall sa bc k m so (g a b c:tensor A),
+  broadcast_shapes sa (bc ++ [m]) = Some so -> tshape a = sa -> tshape b = [k] -> tshape c = bc ++ [k; m] -> tshape g = so ->
+  exists ga gb gc, addmm_backward g a b c = Some (ga, gb, gc) /\
+    tshape ga = tshape a /\ tshape gb = tshape b /\ tshape gc = tshape c /\
+    (forall a' b', tshape a' = tshape a -> tshape b' = tshape b ->
+       exists o, addmm_forward a' b' c = Some o /\ tshape o = so /\
+         dot (idxs so) (tat g) (tat o) = sadd (dot (idxs (tshape a)) (tat ga) (tat a')) (dot (idxs (tshape b)) (tat gb) (tat b'))) /\
+    (forall a' c', tshape a' = tshape a -> tshape c' = tshape c ->
+       exists o, addmm_forward a' b c' = Some o /\ tshape o = so /\
+         dot (idxs so) (tat g) (tat o) = sadd (dot (idxs (tshape a)) (tat ga) (tat a')) (dot (idxs (tshape c)) (tat gc) (tat c'))).
+Proof. exact addmm_vjp_row_proof. Qed.
+(* F.linear with a 1-D input x (k,), W (m,k), bias broadcastable with (m,) / no bias *)
+Theorem linear_1d_vjp : forall k m sb so (g x w bias:tensor A),
+  broadcast_shapes sb [m] = Some so ->
+  tshape x = [k] -> tshape w = [m; k] -> tshape bias = sb -> bias_truth (Some bias) = Some true -> tshape g = so ->
+  exists gx gw gb, linear_backward g x w (Some bias) = Some (gx, gw, Some gb) /\
+    tshape gx = tshape x /\ tshape gw = tshape w /\ tshape gb = tshape bias /\
+    (forall x' b', tshape x' = tshape x -> tshape b' = tshape bias -> bias_truth (Some b') = Some true ->
+       exists o, linear_forward x' w (Some b') = Some o /\ tshape o = so /\
+         dot (idxs so) (tat g) (tat o) = sadd (dot (idxs (tshape x)) (tat gx) (tat x')) (dot (idxs (tshape bias)) (tat gb) (tat b'))) /\
+    (forall w' b', tshape w' = tshape w -> tshape b' = tshape bias -> bias_truth (Some b') = Some true ->
+       exists o, linear_forward x w' (Some b') = Some o /\ tshape o = so /\
+         dot (idxs so) (tat g) (tat o) = sadd (dot (idxs (tshape w)) (tat gw) (tat w')) (dot (idxs (tshape bias)) (tat gb) (tat b'))).
+Proof. exact linear_1d_vjp_proof. Qed.
+Theorem linear_1d_nobias_vjp : forall k m (g x w:tensor A),
+  tshape x = [k] -> tshape w = [m; k] -> tshape g = [m] ->
+  exists gx gw, linear_backward g x w None = Some (gx, gw, None) /\
+    tshape gx = tshape x /\ tshape gw = tshape w /\
+    (forall x', tshape x' = tshape x -> exists o, linear_forward x' w None = Some o /\ tshape o = tshape g /\
+         dot (idxs (tshape g)) (tat g) (tat o) = dot (idxs (tshape x)) (tat gx) (tat x')) /\
+    (forall w', tshape w' = tshape w -> exists o, linear_forward x w' None = Some o /\ tshape o = tshape g /\
+         dot (idxs (tshape g)) (tat g) (tat o) = dot (idxs (tshape w)) (tat gw) (tat w')).
+Proof. exact linear_1d_nobias_vjp_proof. Qed.
+
 (* ---- concat / stack: <g, op(xs)> = sum_k <g_k, x_k>, g_k the k-th piece handed back by the backward ---- *)
 Theorem concat_vjp : forall (xs:list (tensor A)) dim (o g:tensor A),
   concat_forward xs dim = Some o -> tshape g = tshape o ->
@@ -170,49 +234,46 @@ Theorem mean_count_is_fibre_size : forall sa ax ks, strict_axes (length sa) ax =
 Proof. exact mean_n_samples_spec. Qed.
 End C01_mean.
 
-(* ---- max / min (A totally ordered).  dim forms accepted by forward and backward: int and None.
-        On the set of inputs with the same argmax table the forward is a linear gather and the code's backward is
-        its adjoint (hence the derivative wherever the table is locally constant: unique extremum in every fibre,
-        see max_unique_is_selected); at ties the mask selects exactly one, the first, extremal element of each fibre. ---- *)
+(* ---- max / min (A totally ordered), every dim form the forward accepts: None | int | tuple (any sign, any order,
+        also ()), and the int axes 0 / -1 on a 0-d operand.  On the set of inputs with the same argmax table the forward
+        is a linear gather and the code's backward is its adjoint (hence the derivative wherever the table is locally
+        constant: unique extremum in every fibre, see max_unique_maximiser_is_selected); at ties the mask selects exactly one
+        element of each fibre, the first extremal one in row-major order of the reduced coordinates. ---- *)
 Section C01_max.
 Context {A:Type} `{ScalarLaws A} `{!ScalarOrd A} `{!ScalarOrdLaws A}.
 
-Theorem max_vjp : forall (g a:tensor A) z x keep,
-  norm_axis (rank a) z = Some x -> nth x (tshape a) 0 <> 0 ->
-  tshape g = red_shape (mask_of (rank a) [x]) (tshape a) keep ->
-  exists mk r, ext_mask sleb a (AxInt z) = Some mk /\ max_backward g a (AxInt z) keep = Some r /\ tshape r = tshape a /\
-    forall a' mk', tshape a' = tshape a -> ext_mask sleb a' (AxInt z) = Some mk' ->
+Theorem max_vjp : forall (g a:tensor A) ax keep ks,
+  np_reduce_axes true (rank a) ax = Some ks ->
+  fibre_size (mask_of (rank a) ks) (tshape a) <> 0 ->
+  tshape g = red_shape (mask_of (rank a) ks) (tshape a) keep ->
+  exists mk r, ext_mask sleb a ax = Some mk /\ max_backward g a ax keep = Some r /\ tshape r = tshape a /\
+    (forall i, In i (idxs (tshape a)) -> tat r i = if mk i then tat g (proj (mask_of (rank a) ks) keep i) else s0) /\
+    forall a' mk', tshape a' = tshape a -> ext_mask sleb a' ax = Some mk' ->
       (forall i, In i (idxs (tshape a)) -> mk' i = mk i) ->
-      exists o, max_forward a' (AxInt z) keep = Some o /\ tshape o = tshape g /\
+      exists o, max_forward a' ax keep = Some o /\ tshape o = tshape g /\
         dot (idxs (tshape o)) (tat g) (tat o) = dot (idxs (tshape a)) (tat r) (tat a').
-Proof. exact (ext_vjp_int sleb). Qed.
-Theorem min_vjp : forall (g a:tensor A) z x keep,
-  norm_axis (rank a) z = Some x -> nth x (tshape a) 0 <> 0 ->
-  tshape g = red_shape (mask_of (rank a) [x]) (tshape a) keep ->
-  exists mk r, ext_mask sgeb a (AxInt z) = Some mk /\ min_backward g a (AxInt z) keep = Some r /\ tshape r = tshape a /\
-    forall a' mk', tshape a' = tshape a -> ext_mask sgeb a' (AxInt z) = Some mk' ->
+Proof. exact (ext_vjp sleb). Qed.
+Theorem min_vjp : forall (g a:tensor A) ax keep ks,
+  np_reduce_axes true (rank a) ax = Some ks ->
+  fibre_size (mask_of (rank a) ks) (tshape a) <> 0 ->
+  tshape g = red_shape (mask_of (rank a) ks) (tshape a) keep ->
+  exists mk r, ext_mask sgeb a ax = Some mk /\ min_backward g a ax keep = Some r /\ tshape r = tshape a /\
+    (forall i, In i (idxs (tshape a)) -> tat r i = if mk i then tat g (proj (mask_of (rank a) ks) keep i) else s0) /\
+    forall a' mk', tshape a' = tshape a -> ext_mask sgeb a' ax = Some mk' ->
       (forall i, In i (idxs (tshape a)) -> mk' i = mk i) ->
-      exists o, min_forward a' (AxInt z) keep = Some o /\ tshape o = tshape g /\
+      exists o, min_forward a' ax keep = Some o /\ tshape o = tshape g /\
         dot (idxs (tshape o)) (tat g) (tat o) = dot (idxs (tshape a)) (tat r) (tat a').
-Proof. exact (ext_vjp_int sgeb). Qed.
-Theorem max_vjp_full_reduction : forall (g a:tensor A) keep,
-  size (tshape a) <> 0 -> tshape g = red_shape (repeat true (rank a)) (tshape a) keep ->
-  exists mk r, ext_mask sleb a AxNone = Some mk /\ max_backward g a AxNone keep = Some r /\ tshape r = tshape a /\
-    (forall i, In i (idxs (tshape a)) -> tat r i = if mk i then tat g (proj (repeat true (rank a)) keep i) else s0) /\
-    forall a' mk', tshape a' = tshape a -> ext_mask sleb a' AxNone = Some mk' ->
-      (forall i, In i (idxs (tshape a)) -> mk' i = mk i) ->
-      exists o, max_forward a' AxNone keep = Some o /\ tshape o = tshape g /\
-        dot (idxs (tshape o)) (tat g) (tat o) = dot (idxs (tshape a)) (tat r) (tat a').
-Proof. exact (ext_vjp_none sleb). Qed.
-Theorem min_vjp_full_reduction : forall (g a:tensor A) keep,
-  size (tshape a) <> 0 -> tshape g = red_shape (repeat true (rank a)) (tshape a) keep ->
-  exists mk r, ext_mask sgeb a AxNone = Some mk /\ min_backward g a AxNone keep = Some r /\ tshape r = tshape a /\
-    (forall i, In i (idxs (tshape a)) -> tat r i = if mk i then tat g (proj (repeat true (rank a)) keep i) else s0) /\
-    forall a' mk', tshape a' = tshape a -> ext_mask sgeb a' AxNone = Some mk' ->
-      (forall i, In i (idxs (tshape a)) -> mk' i = mk i) ->
-      exists o, min_forward a' AxNone keep = Some o /\ tshape o = tshape g /\
-        dot (idxs (tshape o)) (tat g) (tat o) = dot (idxs (tshape a)) (tat r) (tat a').
-Proof. exact (ext_vjp_none sgeb). Qed.
+Proof. exact (ext_vjp sgeb). Qed.
+(* the mask: position i is selected iff its rank (row-major over the reduced coordinates) within the group of
+   positions sharing its kept coordinates is the arg-best of that group *)
+Theorem max_mask_is_first_argmax_of_group : forall (a:tensor A) ax ks,
+  np_reduce_axes true (rank a) ax = Some ks -> fibre_size (mask_of (rank a) ks) (tshape a) <> 0 ->
+  ext_mask sleb a ax = Some (fun i => fpos (mask_of (rank a) ks) (tshape a) i =?
+                                      argbest sleb (map (tat a) (colof (mask_of (rank a) ks) (tshape a) i))).
+Proof.
+  intros a ax ks Hax Hf. unfold ext_mask. rewrite (ext_code_mask_spec _ _ _ Hax).
+  destruct (fibre_size _ _ =? 0) eqn:E. apply Nat.eqb_eq in E. congruence. reflexivity.
+Qed.
 
 (* np.argmax's tie rule: in every column the selected element is an upper bound of the column and strictly above
    everything before it; a strict unique maximum is the one selected (so the table is stable around such inputs) *)
@@ -230,30 +291,28 @@ Theorem max_unique_maximiser_is_selected : forall (l:list A) d K, K < length l -
   (forall p, p < length l -> p <> K -> sleb (nth K l d) (nth p l d) = false) -> argbest sleb l = K.
 Proof. exact max_unique_is_selected. Qed.
 
-(* OPEN FINDING (known_findings.json C01-max-tuple-dim / C01-min-tuple-dim): a tuple dim is accepted by the forward
-   (np.max / np.min take a tuple axis) but the backward raises (np.argmax(axis=tuple) is a TypeError). *)
-Theorem max_tuple_dim_backward_raises : forall (g a:tensor A) l keep,
-  max_backward g a (AxTuple l) keep = None /\ min_backward g a (AxTuple l) keep = None.
-Proof. intros. split; reflexivity. Qed.
 End C01_max.
 
-(* OPEN FINDINGS, refutation-style facts about the faithful model (witnesses replayed by checks/ops_algebra.py) *)
-Theorem max_tuple_dim_forward_accepted :
-  @max_forward Z _ _ (of_list [2;2] [1;2;3;4]%Z) (AxTuple [0;1]%Z) false <> None.
-Proof. discriminate. Qed.
-Theorem sum_0d_int_dim_backward_raises :
-  let a : tensor Z := scalar0d 5%Z in let g : tensor Z := scalar0d 1%Z in
+(* REPAIRED (fix: max/min tuple dim; 0-d operand with an int dim; 1-D matrix operands): the argument forms whose backward
+   used to raise, as computed instances of the theorems above (A := Z) *)
+Theorem sum_0d_int_dim_backward :
+  let a : tensor Z := scalar0d 5%Z in let g : tensor Z := scalar0d 3%Z in
   sum_forward a (AxInt 0) false <> None /\
-  (r <- sum_backward g (tshape a) (AxInt 0) false ;; accumulate (zeros (tshape a)) r) = None.
-Proof. exact sum_0d_int_dim_backward_raises_proof. Qed.
-Theorem max_0d_int_dim_backward_raises :
-  let a : tensor Z := scalar0d 5%Z in let g : tensor Z := scalar0d 1%Z in
-  max_forward a (AxInt 0) false <> None /\ max_backward g a (AxInt 0) false = None.
-Proof. exact max_0d_int_dim_backward_raises_proof. Qed.
-Theorem addmm_1d_backward_raises : forall (g a b c:tensor Z), rank b < 2 \/ rank c < 2 -> addmm_backward g a b c = None.
-Proof. exact addmm_backward_1d_raises. Qed.
-Theorem linear_1d_backward_raises : forall (g x w:tensor Z) bias, rank x < 2 -> linear_backward g x w bias = None.
-Proof. exact linear_backward_1d_raises. Qed.
+  option_map (@to_list Z) (r <- sum_backward g (tshape a) (AxInt 0) false ;; accumulate (zeros (tshape a)) r) = Some [3%Z].
+Proof. exact sum_0d_int_dim_backward_ok. Qed.
+Theorem max_0d_int_dim_backward :
+  let a : tensor Z := scalar0d 5%Z in let g : tensor Z := scalar0d 3%Z in
+  max_forward a (AxInt (-1)) false <> None /\
+  option_map (@to_list Z) (r <- max_backward g a (AxInt (-1)) false ;; accumulate (zeros (tshape a)) r) = Some [3%Z].
+Proof. exact max_0d_int_dim_backward_ok. Qed.
+Theorem max_tuple_dim_backward :
+  option_map (@to_list Z) (max_backward (of_list [2] [5;7]%Z) (of_list [2;2;2] [1;3;3;0; 4;2;4;1]%Z) (AxTuple [-1;1]%Z) false)
+  = Some [0;5;0;0; 7;0;0;0]%Z.
+Proof. exact max_tuple_dim_backward_ok. Qed.
+Theorem linear_1d_backward :
+  let x : tensor Z := of_list [3] [1;2;3]%Z in let w : tensor Z := of_list [2;3] [1;0;2; 0;1;1]%Z in let g : tensor Z := of_list [2] [5;7]%Z in
+  option_map (fun r => (to_list (fst (fst r)), to_list (snd (fst r)))) (linear_backward g x w None) = Some ([5;7;17]%Z, [5;10;15; 7;14;21]%Z).
+Proof. exact linear_1d_backward_ok. Qed.
 
 Goal True. idtac "ASSUMPTIONS unbroadcast_is_scatter". Abort.
 Print Assumptions unbroadcast_is_scatter.
@@ -279,6 +338,18 @@ Goal True. idtac "ASSUMPTIONS linear_vjp". Abort.
 Print Assumptions linear_vjp.
 Goal True. idtac "ASSUMPTIONS linear_nobias_vjp". Abort.
 Print Assumptions linear_nobias_vjp.
+Goal True. idtac "ASSUMPTIONS matmul_vjp_1d_first". Abort.
+Print Assumptions matmul_vjp_1d_first.
+Goal True. idtac "ASSUMPTIONS matmul_vjp_1d_second". Abort.
+Print Assumptions matmul_vjp_1d_second.
+Goal True. idtac "ASSUMPTIONS addmm_vjp_1d_c". Abort.
+Print Assumptions addmm_vjp_1d_c.
+Goal True. idtac "ASSUMPTIONS addmm_vjp_1d_b". Abort.
+Print Assumptions addmm_vjp_1d_b.
+Goal True. idtac "ASSUMPTIONS linear_1d_vjp". Abort.
+Print Assumptions linear_1d_vjp.
+Goal True. idtac "ASSUMPTIONS linear_1d_nobias_vjp". Abort.
+Print Assumptions linear_1d_nobias_vjp.
 Goal True. idtac "ASSUMPTIONS concat_vjp". Abort.
 Print Assumptions concat_vjp.
 Goal True. idtac "ASSUMPTIONS stack_vjp". Abort.
@@ -293,28 +364,22 @@ Goal True. idtac "ASSUMPTIONS max_vjp". Abort.
 Print Assumptions max_vjp.
 Goal True. idtac "ASSUMPTIONS min_vjp". Abort.
 Print Assumptions min_vjp.
-Goal True. idtac "ASSUMPTIONS max_vjp_full_reduction". Abort.
-Print Assumptions max_vjp_full_reduction.
-Goal True. idtac "ASSUMPTIONS min_vjp_full_reduction". Abort.
-Print Assumptions min_vjp_full_reduction.
+Goal True. idtac "ASSUMPTIONS max_mask_is_first_argmax_of_group". Abort.
+Print Assumptions max_mask_is_first_argmax_of_group.
 Goal True. idtac "ASSUMPTIONS max_mask_selects_first_maximiser". Abort.
 Print Assumptions max_mask_selects_first_maximiser.
 Goal True. idtac "ASSUMPTIONS min_mask_selects_first_minimiser". Abort.
 Print Assumptions min_mask_selects_first_minimiser.
 Goal True. idtac "ASSUMPTIONS max_unique_maximiser_is_selected". Abort.
 Print Assumptions max_unique_maximiser_is_selected.
-Goal True. idtac "ASSUMPTIONS max_tuple_dim_backward_raises". Abort.
-Print Assumptions max_tuple_dim_backward_raises.
-Goal True. idtac "ASSUMPTIONS max_tuple_dim_forward_accepted". Abort.
-Print Assumptions max_tuple_dim_forward_accepted.
-Goal True. idtac "ASSUMPTIONS sum_0d_int_dim_backward_raises". Abort.
-Print Assumptions sum_0d_int_dim_backward_raises.
-Goal True. idtac "ASSUMPTIONS max_0d_int_dim_backward_raises". Abort.
-Print Assumptions max_0d_int_dim_backward_raises.
-Goal True. idtac "ASSUMPTIONS addmm_1d_backward_raises". Abort.
-Print Assumptions addmm_1d_backward_raises.
-Goal True. idtac "ASSUMPTIONS linear_1d_backward_raises". Abort.
-Print Assumptions linear_1d_backward_raises.
+Goal True. idtac "ASSUMPTIONS sum_0d_int_dim_backward". Abort.
+Print Assumptions sum_0d_int_dim_backward.
+Goal True. idtac "ASSUMPTIONS max_0d_int_dim_backward". Abort.
+Print Assumptions max_0d_int_dim_backward.
+Goal True. idtac "ASSUMPTIONS max_tuple_dim_backward". Abort.
+Print Assumptions max_tuple_dim_backward.
+Goal True. idtac "ASSUMPTIONS linear_1d_backward". Abort.
+Print Assumptions linear_1d_backward.
 
 (* ---- the hypotheses are satisfiable on non-trivial instances, and the statements compute (A := Z) ---- *)
 Example ex_unbroadcast :
